@@ -1,4 +1,5 @@
-import Props.SlicesGen
+import Props.GenHeads
+import Props.GenJoin
 open Model.SlicesGen
 #print axioms findHeads_eq
 #print axioms logDifference_eq
